@@ -226,6 +226,7 @@ pub fn build_abiding_ext(g: &Genome, ext: Ext) -> Built {
             allow_unused: false,
             v1_flip: false,
             view_of,
+            specific_eh: None,
         });
         discs.push(disc);
         claimed.push(false);
@@ -248,6 +249,7 @@ pub fn build_abiding_ext(g: &Genome, ext: Ext) -> Built {
             allow_unused: false,
             v1_flip: false,
             view_of: None,
+            specific_eh: None,
         });
         discs.push(Disc::BorrowOnly);
         claimed.push(false);
@@ -397,6 +399,16 @@ pub fn build_abiding_ext(g: &Genome, ext: Ext) -> Built {
         };
         eh_idx.push(comps.len());
         comps.push(CompSpec { kind: CompKind::ErrHandler { err: e, default: false }, inputs, fallible: None, is_async: e % 2 == 1, route: None, fw: vec![], gens: vec![] });
+    }
+    // ---- component-specific error handlers: a third of the fallible request-time constructors are registered with
+    // `.error_handler(..)`; that handler (not the one registered for the error type) handles their failures
+    for t in 0..n {
+        if let (Some(e), true) = (types[t].fallible, types[t].life != Life::Singleton) {
+            if (g.types[t].disc / 16) % 3 == 0 {
+                types[t].specific_eh = Some(comps.len());
+                comps.push(CompSpec { kind: CompKind::ErrHandler { err: e, default: false }, inputs: vec![], fallible: None, is_async: t % 2 == 0, route: None, fw: vec![], gens: vec![] });
+            }
+        }
     }
     // ---- an error handler for an error type that nothing returns: registered in some *nested*
     // blueprints only, so that those blueprints have error handlers of their own while every real
@@ -1217,6 +1229,7 @@ pub fn plant(base: &AppSpec, rule: usize, raw: u16) -> Option<Planted> {
                 allow_unused: false,
                 v1_flip: false,
                 view_of: None,
+                specific_eh: None,
             });
             spec.bp.insert(0, Reg::Ctor { ty: t, variant: 0 });
             spec.comps[c].inputs.push((t, Mode::Move));
@@ -1521,6 +1534,7 @@ pub fn apply_attr_styles(base: &AppSpec, raw: u64) -> Styled {
             allow_unused: allow,
             v1_flip: false,
             view_of: None,
+            specific_eh: None,
         });
         spec.bp.insert(0, Reg::Ctor { ty: i, variant: 0 });
         unused.push((i, allow));
@@ -1559,6 +1573,7 @@ pub fn build_stage_stress(raw: u64) -> AppSpec {
         allow_unused: false,
         v1_flip: false,
         view_of: None,
+        specific_eh: None,
     };
     // T0: request-scoped clone-if-necessary; T1: singleton clone-if-necessary; T2: request-scoped Copy; T3: transient built from &T0
     let mut types = vec![mk_type(Life::Request, false), mk_type(Life::Singleton, false), mk_type(Life::Request, true)];
@@ -1685,6 +1700,7 @@ pub fn build_naming_stress(raw: u64) -> AppSpec {
             allow_unused: false,
             v1_flip: false,
             view_of: None,
+            specific_eh: None,
         });
     }
     let n_errs = n_single;
@@ -1860,6 +1876,7 @@ pub fn build_startup_stress(raw: u64) -> AppSpec {
         allow_unused: false,
         v1_flip: false,
         view_of: None,
+        specific_eh: None,
     };
     let mut types = vec![];
     // T0: base singleton; T1: transient (from &T0 or from nothing); T2: transient built from a T1
